@@ -44,6 +44,11 @@ def build(U):
         X = U.src(rel)
         X.scan('RESTORE ttl argument comes from pttl_to_restore_expire_time(pttl)', r'let expire_time = pttl_to_restore_expire_time\(pttl\);', 1)
         X.scan('PTTL_KEY_NOT_FOUND replies are filtered', r'Resp::Integer\(pttl\) if pttl(?:\.as_slice\(\))? [!=]= PTTL_KEY_NOT_FOUND', 1)
+    # the RESTORE command is built as RESTORE <key> <converted ttl> <payload> at both construction sites (scan)
+    U.src('src/proxy/migration_backend.rs').scan('gen_restore_resp builds [RESTORE, key, expire_time, raw_data]',
+        r'Resp::Bulk\(BulkStr::Str\("RESTORE"\.to_string\(\)\.into_bytes\(\)\)\),\s*Resp::Bulk\(BulkStr::Str\(key\.into\(\)\)\),\s*Resp::Bulk\(BulkStr::Str\(expire_time\)\),\s*Resp::Bulk\(BulkStr::Str\(raw_data\)\),\s*\];', 1)
+    U.src('src/migration/scan_migration.rs').scan('scan path builds [RESTORE, key, expire_time, raw_data]',
+        r'let restore_cmd = vec!\[\s*"RESTORE"\.to_string\(\)\.into_bytes\(\),\s*key,\s*expire_time,\s*raw_data,\s*\];', 1)
     U.trust('btoi::btoi::<i64> by assumed contract spec_btoi_i64 (cross-checked by Kani group c19 on <= 3 bytes)',
             'slice == slice is sequence equality (shim_slice_eq)')
 
